@@ -213,8 +213,14 @@ func main() {
 	// times the budget: a loaded machine must not turn into a false alarm (a real failure stays undecided
 	// or sat and only costs the extra time).
 	var retry []*Obligation
+	knownNames := map[string]bool{}
+	for _, k := range readKnownFindings(filepath.Join(*verifDir, "known_findings.txt")) {
+		if k.Kind == "finding" {
+			knownNames[k.Obligation] = true
+		}
+	}
 	for _, ob := range all {
-		if ob.Status == "unknown" && !ob.Cover {
+		if ob.Status == "unknown" && !ob.Cover && !knownNames[ob.Name] {
 			retry = append(retry, ob)
 		}
 	}
